@@ -57,6 +57,11 @@ func VerifC39_messages() {
 	})
 	it := NewIterator(q, limit)
 	ctx := context.Background()
+	if verifrt.NondetBool("total") {
+		// asking for the total first must not disturb the iteration
+		total, err := it.Total(ctx)
+		verifrt.Assert(err == nil && total == n, "C39.messages.total")
+	}
 	var got []int
 	for step := 0; step < n+2; step++ {
 		if !it.Next(ctx) {
